@@ -54,7 +54,7 @@ extern "C" int LLVMFuzzerTestOneInput(const uint8_t* data, size_t size)
     KV c;
     c.putS("part", "api");
     s.put(c);
-    c.putI("grid_file", R(0, 9) == 0 ? R(1, 2) : 0);
+    c.putI("grid_file", R(0, 6) == 0 ? R(1, 5) : 0);
     c.putI("verbose2", R(0, 2));
     fuzzJudge(c, runApiCase(c));
     return 0;
